@@ -24,7 +24,7 @@ func claimInput(miner, to common.Address, lockupByte byte, epoch uint32, gas uin
 
 // H-C13-c: a contract-held coinbase lockup can be claimed only by the owning contract, only once
 // the tranche is unlocked and its epoch is over, only once, and for exactly the accumulated
-// balance. A record (arbitrary balance < 2^16, tranche height, element count) for (owner, miner,
+// balance, to an address of the ledger the reward was earned in. A record (arbitrary balance < 2^16, tranche height, element count) for (owner, miner,
 // lockup byte, epoch) is committed in the database; an arbitrary caller (the owner or another
 // contract) claims it at an arbitrary block height through the real ClaimCoinbaseLockup against a
 // block batch with pending tracking, and then claims it a second time in the same block.
@@ -37,8 +37,16 @@ func VerifH_C13_c() {
 	st := newModelState(db)
 	owner := modelAddr(0x00, 0x00, 0x11)
 	other := modelAddr(0x00, 0x00, 0x12)
-	miner := modelAddr(0x00, 0x00, 0x22)
-	to := modelAddr(0x00, 0x00, 0x33)
+	// miner and recipient each in the Quai or in the Qi ledger (second address byte), independently
+	minerLedger, toLedger := byte(0x00), byte(0x00)
+	if vBool("minerInQiLedger") {
+		minerLedger = 0x80
+	}
+	if vBool("recipientInQiLedger") {
+		toLedger = 0x80
+	}
+	miner := modelAddr(0x00, minerLedger, 0x22)
+	to := modelAddr(0x00, toLedger, 0x33)
 	lockupByte, epoch := vU8("lockupByte"), uint32(vU16("epoch"))
 	recBal := vBigN("recordBalance", 16)
 	tranche, elements := vU32("tranche"), vU16("elements")
@@ -68,6 +76,8 @@ func VerifH_C13_c() {
 		vAssert("claim/epoch-over", epoch < latestEpoch)
 		vAssert("claim/tranche-unlocked", uint64(tranche) <= height)
 		vAssert("claim/has-elements", elements > 0)
+		// the tranche is an amount in the miner's ledger unit: it can only be paid out in that ledger
+		vAssert("claim/recipient-in-the-miners-ledger", minerLedger == toLedger)
 		vAssert("claim/one-etx", len(evm.ETXCache) == n0+1)
 		if len(evm.ETXCache) == n0+1 {
 			etx := evm.ETXCache[n0]
